@@ -223,9 +223,15 @@ class ACSE:
             )
         except NotImplementedError:
             setattr(self.assoc, "abort", self.assoc._abort_blocking)
-            # If the user hasn't implemented identity negotiation then
-            #   default to accepting the association
-            return True, None
+            handler = self.assoc.get_handlers(evt.EVT_USER_ID)[0]
+            if handler is evt.get_default_handler(evt.EVT_USER_ID):
+                # If the user hasn't implemented identity negotiation then
+                #   default to accepting the association
+                return True, None
+
+            # A handler bound by the user raised: reject the association
+            LOGGER.error("Exception in handler bound to 'evt.EVT_USER_ID'")
+            return False, None
         except Exception as exc:
             setattr(self.assoc, "abort", self.assoc._abort_blocking)
             # If the user has implemented identity negotiation but an exception
